@@ -30,6 +30,15 @@ EXTRA["history"] = """5. This time the change must be **history-dependent**: on 
    caller; a mutable default argument or class-level attribute that accumulates; an iterator or list consumed once;
    a counter or id that is not reset (or is reset when it should not be). It does not have to be a cache. The demo should
    show the same call giving the right result the first time and the wrong one later (or after the earlier event)."""
+EXTRA["history2"] = EXTRA["history"] + """
+   The obvious histories have been studied already (second use of one object, a refused call followed by a valid one, stop and
+   re-register, a cache keyed too coarsely). Prefer the less obvious ones: **long-run accumulation** (the 17th, 257th or
+   65537th item: ids, labels, addresses, registers, counters that wrap or run out), **process-wide switches and reset
+   functions** (a global setting changed between two steps, a reset function that forgets one table), **two objects that
+   share something they should not** (a default argument, a class attribute, a list handed out by a getter, an object stored
+   by reference that the caller edits later), **ordering between two different APIs** (A then B differs from B then A although
+   they are independent), **interleaving of two applications / connections / threads** in one process, and **what survives a
+   close** (of a connection, a socket, an application) into the next one with the same name or id."""
 extra = EXTRA[style]
 props = [json.loads(l) for l in open('/verif/properties.jsonl')]
 only = [x for x in os.environ.get("WAVE_ONLY", "").split(",") if x]
